@@ -379,5 +379,7 @@ def run(ctx):
     ctx.floor("C13.LAZY", n_lazy, 3, "uses of the lazily imported parser module")
     from ..rules_common import check_presence_tests, ARG_SCOPE
     check_presence_tests(ctx, "C13.PRESENCE", classes=ARG_SCOPE.get("C13", []))
+    from ..rules_common import check_param_rebinding
+    check_param_rebinding(ctx, "C13.PARAMS", classes=ARG_SCOPE.get("C13", []))
 
 
